@@ -143,20 +143,31 @@ def gen_T06():
     need(isinstance(mls, int), 'MAX_LINE_SIZE not an int')
     tr = find_def(il, '_truncateMsg', 'Irc')
     env = {'MAX_LINE_SIZE': mls}
+    # the limit is measured on the UTF-8 encoding of the part after the tags (repair of C06.F19)
+    enc = [n for n in tr.body if isinstance(n, ast.Assign) and ast.unparse(n.targets[0]) == 'msg_rest_bytes']
+    need(len(enc) == 1 and ast.unparse(enc[0].value) in ("msg_rest_str.encode('utf-8')", "msg_rest_str.encode('utf8')", 'msg_rest_str.encode()'),
+         '_truncateMsg: expected msg_rest_bytes = msg_rest_str.encode(\'utf-8\')')
     ifs = [n for n in ast.walk(tr) if isinstance(n, ast.If) and isinstance(n.test, ast.Compare)
-           and ast.unparse(n.test.left) == 'len(msg_rest_str)']
+           and ast.unparse(n.test.left) == 'len(msg_rest_bytes)']
     need(len(ifs) == 1 and len(ifs[0].test.ops) == 1 and isinstance(ifs[0].test.ops[0], ast.Gt),
-         '_truncateMsg: expected exactly one `if len(msg_rest_str) > ...`')
+         '_truncateMsg: expected exactly one `if len(msg_rest_bytes) > ...` (the length test must count bytes)')
+    need(tr.body.index(enc[0]) < tr.body.index(ifs[0]), '_truncateMsg: encoding must precede the length test')
     limit = eval(compile(ast.Expression(ifs[0].test.comparators[0]), 'x', 'eval'), env)
+    cuts = [n for n in ast.walk(ifs[0]) if isinstance(n, ast.Assign) and ast.unparse(n.targets[0]) == 'msg_rest_str']
+    need(len(cuts) == 1, '_truncateMsg: expected one re-assignment of msg_rest_str inside the if')
+    c = cuts[0].value
+    need(isinstance(c, ast.Call) and isinstance(c.func, ast.Attribute) and c.func.attr == 'decode'
+         and [ast.literal_eval(x) for x in c.args] in (['utf-8', 'ignore'], ['utf8', 'ignore']) and not c.keywords
+         and isinstance(c.func.value, ast.Subscript) and ast.unparse(c.func.value.value) == 'msg_rest_bytes'
+         and isinstance(c.func.value.slice, ast.Slice) and c.func.value.slice.lower is None and c.func.value.slice.step is None,
+         '_truncateMsg: cut expression changed: ' + ast.unparse(c))
+    keep = eval(compile(ast.Expression(c.func.value.slice.upper), 'x', 'eval'), env)
     assigns = [n for n in ast.walk(ifs[0]) if isinstance(n, ast.Assign) and ast.unparse(n.targets[0]) == 'msg._str']
     need(len(assigns) == 1, '_truncateMsg: expected one assignment to msg._str')
     v = assigns[0].value
     need(isinstance(v, ast.BinOp) and isinstance(v.op, ast.Add) and isinstance(v.right, ast.Constant)
-         and isinstance(v.left, ast.BinOp) and ast.unparse(v.left.left) == 'msg_tags_str'
-         and isinstance(v.left.right, ast.Subscript) and ast.unparse(v.left.right.value) == 'msg_rest_str'
-         and isinstance(v.left.right.slice, ast.Slice) and v.left.right.slice.lower is None
-         and v.left.right.slice.step is None, '_truncateMsg: msg._str expression changed: ' + ast.unparse(v))
-    keep = eval(compile(ast.Expression(v.left.right.slice.upper), 'x', 'eval'), env)
+         and ast.unparse(v.left) == 'msg_tags_str + msg_rest_str', '_truncateMsg: msg._str expression changed: ' + ast.unparse(v))
+    need(ifs[0].body.index(cuts[0]) < ifs[0].body.index(assigns[0]), '_truncateMsg: cut must precede the assignment of msg._str')
     tail = v.right.value
     need(isinstance(keep, int) and isinstance(limit, int) and isinstance(tail, str), '_truncateMsg constants')
     head = ast.unparse(tr.body[1]) if len(tr.body) > 1 else ''
